@@ -1,8 +1,74 @@
-/- Driver operations of the Cache model (stub until the model lands). -/
-import TypelibModel.Drv.Core
-open Lean
-namespace Typelib.Drv
+/-
+  Driver operations of the Cache model (property C12).  Not part of any theorem.
 
-def handleCache (_st : St) (_op : String) (_j : Json) : Option (Except String (St × Json)) := none
+    cache.run    {"sites":[site…], "ops":[op…]}
+                 → {"cached":[out…], "cold":[out…],      -- outputs of runCached / runCold
+                    "good":bool,                         -- every declared site congruent and fresh-or-immutable
+                    "aliased":bool,                      -- aliasedKeys over all sites (the unionOrderKey predicate)
+                    "freshOrImmutableCalls":bool}        -- callsFreshOrImmutable
+    cache.sites  {} → [{"name":…, "congruent":b, "shared":b, "mutable":b, "public":b, "good":b}, …]
+                                                         -- the declared classification of the real sites
+
+  site = {"shared":b, "mutable":b, "forgets":b, "uses":b}      (Model/Cache.lean `AbsSite`)
+  op   = ["call", site#, class, variant] | ["mutate", i] | ["read", i] | ["clear"]
+  out  = null | [n, …]                                          (a value is a list of numbers)
+-/
+import TypelibModel.Drv.Core
+import TypelibModel.Model.Cache
+open Lean
+namespace Typelib.Drv.CacheOps
+open Typelib.Cache Typelib.Drv
+
+def jBoolField (j : Json) (k : String) : Except String Bool :=
+  match j.getObjVal? k with
+  | .ok (.bool b) => .ok b
+  | _ => .error s!"field {k}: not a bool"
+
+def siteOfJson (j : Json) : Except String AbsSite := do
+  pure { shared := (← jBoolField j "shared"), mutable := (← jBoolField j "mutable"),
+         keyForgets := (← jBoolField j "forgets"), pureUsesVariant := (← jBoolField j "uses") }
+
+def opOfJson (j : Json) : Except String AOp :=
+  match j with
+  | .arr a =>
+    match a.toList with
+    | [.str "call", s, c, v] => do pure (.call (← jNat s) ((← jNat c), (← jNat v)))
+    | [.str "mutate", i] => do pure (.mutate (← jNat i))
+    | [.str "read", i] => do pure (.read (← jNat i))
+    | [.str "clear"] => pure .clear
+    | _ => .error s!"bad cache op {j}"
+  | _ => .error s!"bad cache op {j}"
+
+def outToJson : Out AVal → Json
+  | .unit => .null
+  | .value v => .arr (v.map jN).toArray
+
+def siteClassToJson (s : RealSite) : Json :=
+  let c := classify s
+  Json.mkObj [("name", .str s.name), ("congruent", .bool c.congruent), ("shared", .bool c.returnsShared),
+              ("mutable", .bool c.resultMutable), ("public", .bool c.«public»), ("good", .bool c.good)]
+
+end Typelib.Drv.CacheOps
+
+namespace Typelib.Drv
+open Typelib.Cache Typelib.Drv.CacheOps
+
+def handleCache (st : St) (op : String) (j : Json) : Option (Except String (St × Json)) :=
+  match op with
+  | "cache.run" => some do
+    let sitesJ ← j.getObjValAs? (Array Json) "sites"
+    let sites ← sitesJ.toList.mapM siteOfJson
+    let opsJ ← j.getObjValAs? (Array Json) "ops"
+    let ops ← opsJ.toList.mapM opOfJson
+    let M := absMachine sites
+    pure (st, Json.mkObj [
+      ("cached", .arr ((runCached M ops).2.map outToJson).toArray),
+      ("cold", .arr ((runCold M ops).2.map outToJson).toArray),
+      ("good", .bool (sites.all AbsSite.good)),
+      ("aliased", .bool (aliasedKeys M (fun _ => true) ops)),
+      ("freshOrImmutableCalls", .bool (callsFreshOrImmutable M ops))])
+  | "cache.sites" => some do
+    pure (st, .arr (RealSite.all.map siteClassToJson).toArray)
+  | _ => none
 
 end Typelib.Drv
